@@ -73,6 +73,9 @@ def run(ctx, progs):
         free1(ctx, prog, cfg)
         ctor1(ctx, prog, cfg)
         reint1(ctx, prog, cfg)
+        from .. import drainrules
+
+        drainrules.drnview1(ctx, prog, cfg, "REINT1")
 
 
 # ------------------------------------------------------------------------------------------------
